@@ -22,16 +22,24 @@ from ..ref import c18lang as L
 
 ID = "C18"
 LEVEL_RULE = (
-    "expression descriptors enumerated by level, simplest first.  'core' alphabet (4 leaves, neg/sum/getslice, "
-    "sub/truediv, contraction, tuples): every term of depth <= 2, no pruning (so every shared-subterm DAG "
-    "shape of that depth occurs).  'wide'/'full' alphabet (all ops of the fragment): level 1 complete over the leaf "
-    "alphabet; level n+1 = every constructor of the light alphabet applied to >=1 operand from the level-n pool and "
-    "operands from the companion pool (leaves + first level-1 term per (root op, output shape)); the level-n pool is "
-    "the first term per (root op, parameter, input names, output shape).  trace cases: every such descriptor with "
-    "<= 4 ops and <= 3 inputs, in the base variant plus one deviation at a time (op-calling style, evaluation "
-    "order, a dead op, reversed kwargs, an unused kwarg, allow_constants).  A case is non-trivial when the program has "
-    ">= 1 operation and was compared with a defined reference at >= 1 binding through every route; distinct = "
-    "distinct case text"
+    "expression descriptors enumerated by level, simplest first.  'core' alphabet (leaves a:Real, b:Reals[2], "
+    "Number 2.5, Tensor[2]; neg, sum; sub, truediv; add-contraction of 2 and 3 terms; tuples): EVERY term of depth "
+    "<= 2, no pruning (unary(x), binary(x, y) for all x, y of depth <= 1 including x = y, so every shared-subterm "
+    "DAG shape of that depth occurs); thorough adds depth 3 = constructors over (level-2 pool x companion) in both "
+    "operand orders, level-2 pool = first term per (root op, operand heads, identical-operand pattern, input names, "
+    "output shape), companion = leaves + first level-1 term per (root op, output shape).  'wide' (quick) / 'full' "
+    "(thorough) alphabet with every op of the fragment: level 1 complete over the leaf alphabet (all ordered pairs, "
+    "3-term contractions, tuples); level n+1 = the light op alphabet (every non-commutative op, add, neg, exp, sum, "
+    "one reshape, two slices, getitem, contractions) over (level-n pool x companion) in both operand orders plus "
+    "op(x, x); level-1 pool = first term per (root op, output shape) [quick] / (root op, parameter, input names, "
+    "output shape) [thorough]; level-2 pool (thorough) = first term per (root op, output shape); companion = leaves "
+    "+ first level-1 term per (node kind, output shape).  Plus 10 hand-written DAG shapes.  trace cases: the base "
+    "variant of every descriptor with <= 4 ops, <= 3 inputs and no tuple; one deviation at a time (op parameters "
+    "passed positionally / by keyword, right-to-left evaluation order, a dead op, reversed kwargs, an unused kwarg "
+    "before / after, allow_constants flipped) for the first descriptor per (root op, parameter, input names, "
+    "output shape, shared bit, constant kinds).  names cases: 4 programs x input names that collide with the "
+    "printer's locals.  A case is non-trivial when the program has >= 1 operation and every route (call, pickle, "
+    "printed source, rejection) was compared with a defined reference at >= 1 binding; distinct = distinct case text"
 )
 ASSUMPTIONS = [
     "numpy backend; FUNSOR_DEBUG/PROFILE off",
@@ -70,8 +78,7 @@ def bounds(tier):
         "core_alphabet": _alpha_sizes("core"),
         "wide_alphabet": _alpha_sizes("full" if tier == "thorough" else "wide"),
         "trace": {"max_ops": 4, "max_inputs": 3},
-        "pruning": "level pool: first term per (root op, parameter, sorted input names, output shape); companion "
-        "pool: leaves + first level-1 term per (root op, output shape)",
+        "pruning": "see coverage.rule; pool sizes below are measured",
     }
     b.update(_CORPUS_STATS.get(tier, {}))
     return b
@@ -102,6 +109,26 @@ def _tuples(pool, k3):
     return out
 
 
+def dag_shapes():
+    """Hand-written DAG shapes (a sub-term used twice / at two depths), present in both tiers."""
+    a, b, c, d = L.V("a"), L.V("b"), L.V("c"), L.V("d")
+    s = ("b", "sub", a, b)
+    f = ("u", "exp", None, a)
+    m = ("b", "matmul", c, d)
+    return [
+        ("b", "truediv", s, s),  # (a-b)/(a-b)
+        ("b", "sub", f, ("b", "mul", f, b)),  # f(x) - f(x)*y
+        ("b", "truediv", ("u", "neg", None, s), ("u", "exp", None, s)),  # diamond
+        ("b", "sub", a, ("b", "truediv", a, ("u", "neg", None, a))),  # one leaf at three depths
+        ("b", "pow", ("b", "truediv", s, b), ("b", "truediv", b, s)),  # two users, operands swapped
+        ("tup", (s, ("u", "neg", None, s), s)),
+        ("con", "add", (s, s, b)),
+        ("b", "sub", m, ("b", "truediv", ("ten", 1, (2,)), m)),  # shared matmul next to a constant
+        ("b", "sub", ("b", ("getitem", 1), c, L.I("j")), ("u", "sum", -1, c)),
+        ("b", "truediv", ("b", "sub", ("num", 2.5), a), ("b", "sub", a, ("num", 2.5))),  # one constant, two users
+    ]
+
+
 def expressions(tier):
     """Deterministic list of expression descriptors, simplest first, with per-level statistics."""
     if tier in _CORPUS:
@@ -120,9 +147,12 @@ def expressions(tier):
     p1 = L.prune(l1, L.key_op_inputs_shape)
     t2 = L._dedup(_tuples(p1, [(p1[0], l0[0], p1[0]), (l0[1], p1[-1], p1[1])]) + [("tup", (x,)) for x in p1], seen)
     core_terms = l0 + l1 + t1 + l2 + t2
+    shapes = [e for e in dag_shapes() if L.well_typed(e)]
+    assert len(shapes) == len(dag_shapes())
+    stats["hand_written_dag_shapes"] = len(shapes)
     stats["core_levels"] = [len(l0), len(l1) + len(t1), len(l2) + len(t2)]
     if thorough:
-        p2 = L.prune(l2, L.key_op_inputs_shape)
+        p2 = L.prune(l2, L.key_struct)
         comp = l0 + L.prune(l1, L.key_op_shape)
         l3 = L.level_up(p2, comp, al, seen)
         core_terms += l3
@@ -157,7 +187,7 @@ def expressions(tier):
         stats["wide_companion2"] = len(comp2)
 
     out, seen = [], set()
-    for e in core_terms + wide_terms:
+    for e in core_terms + wide_terms + shapes:
         if e not in seen:
             seen.add(e)
             out.append(e)
@@ -486,7 +516,7 @@ def check_program(program, points, all_envs, counters, prefix=""):
         _call("pickle", clone, env, ref, prefix)
     # rejection
     env0 = all_envs[0]
-    rej = set()
+    rej, rej_src = set(), set()
     for label, prog in (("program", program), ("pickle", clone)):
         for k in list(env0):
             bad = {n: v for n, v in env0.items() if n != k}
@@ -557,18 +587,18 @@ def check_program(program, points, all_envs, counters, prefix=""):
         try:
             got = printed(**{n: v for n, v in env0.items() if n != k})
         except Exception as ex:
-            rej.add(type(ex).__name__)
+            rej_src.add(type(ex).__name__)
         else:
             raise Found(site if site.startswith("as_code:") else prefix + "reject:missing-input",
                         "exec(as_code()) called without input %r returned %s" % (k, _short(got)), "reject", env0, None, {"dropped": k})
     try:
         got = printed(**dict(env0, unknown_input_=np.array(1.0)))
     except Exception as ex:
-        rej.add(type(ex).__name__)
+        rej_src.add(type(ex).__name__)
     else:
         raise Found(site if site.startswith("as_code:") else prefix + "reject:unknown-input",
                     "exec(as_code()) called with an unknown input returned %s" % _short(got), "reject", env0, None)
-    return "+".join(sorted(rej))
+    return "%s/src:%s" % ("+".join(sorted(rej)), "+".join(sorted(rej_src)))
 
 
 def reference_points(e, envs, seed, counters):
@@ -631,12 +661,12 @@ def check_expr(case, seed):
         leaf = {rn.get(s[1], s[1]): s for s in ins}
         for env, ref in pts:
             try:
-                if env:
-                    sub = expr(**{k: to_subs(leaf[k], v) for k, v in env.items()})
-                else:
-                    from funsor.interpreter import reinterpret
+                from funsor.interpreter import reinterpret
 
-                    sub = reinterpret(expr)
+                sub = expr(**{k: to_subs(leaf[k], v) for k, v in env.items()}) if env else expr
+                val = ground(sub)
+                if val is None:  # constant-only sub-terms built lazily are untouched by substitution: evaluate them
+                    sub = reinterpret(sub)
                 val = ground(sub)
             except Exception as ex:
                 counters["substitution_raised:" + type(ex).__name__] = counters.get("substitution_raised:" + type(ex).__name__, 0) + 1
